@@ -80,12 +80,13 @@ def slices(tier):
         # derivative operators, then a scalar made of them
         Slice("d1", [F, U, A], D2, 3, idx=(10,), levels=[D2, {"inner", "dot", "index", "mul", "tr"}, PIPE], mikinds=("fixed",), **kwo([0, 1, 5, 7, 8])),
         # derivatives of expressions (products, quotients, geometry factors)
-        Slice("d-expr", [F, G, X], D2 | SC, 4, idx=(10,), levels=[{"mul", "div", "dot"}, {"grad", "div", "dx"}, {"inner", "index", "mul"}, PIPE], mikinds=("fixed",), chain="strict", **kwo([1, 7])),
+        Slice("d-expr", [F, X], D2 | SC, 4, idx=(10,), levels=[{"mul", "div", "dot"}, {"grad", "div", "dx"}, {"inner", "index"}, PIPE], mikinds=("fixed",), chain="strict", **kwo([1, 7])),
         # second derivatives
         Slice("d2", [F, U], D2, 4, idx=(10,), levels=[{"grad", "nabla_grad"}, {"grad", "div", "nabla_div", "dx"}, {"inner", "index", "tr", "dot"}, PIPE], mikinds=("fixed",), chain="strict", **kwo([1, 6, 8])),
     ]
     if not q:
         out += [
+            Slice("d-expr-wide", [F, G, X], D2 | SC, 4, idx=(10,), levels=[{"mul", "div", "dot"}, {"grad", "div", "dx"}, {"inner", "index", "mul"}, PIPE], mikinds=("fixed",), chain="strict", **kw),
             Slice("alg2", [F, G, U, A, X, VOL], SC, 3, lits=[LIT["two"]], idx=(10,), levels=[SC | {"tr", "det", "outer", "transpose"}, SC | {"tr", "det"}, PIPE], mikinds=("fixed", "name"), **kw),
             Slice("d-expr2", [F, G, U, X], D2 | SC, 4, idx=(10,), levels=[{"mul", "div", "index", "dot", "outer", "inner"}, D2, {"inner", "dot", "index", "mul", "tr"}, PIPE], mikinds=("fixed", "name"), **kw),
         ]
